@@ -108,6 +108,22 @@ pub fn run() -> Report {
             if let Err(m) = wk.materialise(&xor_world) {
                 return acc.machinery(m);
             }
+            // every third case: xor.dat is a symbolic link to the key file (absolute target, much longer than the key, or
+            // a relative one shorter than it) - how the key file is reached is not part of the data
+            if i % 3 != 0 {
+                let link = wk.data().join("xor.dat");
+                if let Ok(meta) = std::fs::symlink_metadata(&link) {
+                    if meta.is_file() {
+                        let keyfile = wk.dir.join("k");
+                        let _ = std::fs::rename(&link, &keyfile);
+                        let target = if i % 3 == 1 { keyfile.clone() } else { std::path::PathBuf::from("../k") };
+                        if std::os::unix::fs::symlink(&target, &link).is_err() {
+                            return acc.machinery("cannot create xor.dat symlink".into());
+                        }
+                        acc.count(if i % 3 == 1 { "xor.dat-is-absolute-symlink" } else { "xor.dat-is-relative-symlink" }, 1);
+                    }
+                }
+            }
             for (i, cbn) in c.cbs.iter().enumerate() {
                 let spec = RunSpec::new("bitcoin", cbn).verify(verify);
                 let r = wk.run(&spec);
